@@ -14,6 +14,7 @@ DOMAIN = [
     {"b": None, "a": [1, {"k": 2}], "c": {"x": SHARED}},
     {"name": "nm", "a": 0},
     {"children_x": 1, "_priv": 2, "b": "t"},
+    {"size": 4096, "depth": "deep", "height": None, "is_leaf": 0},   # instance attributes named like read-only properties
 ]
 BOOK = ("_NodeMixin__children", "_NodeMixin__parent")
 
@@ -34,6 +35,8 @@ def childiters():
         "list": (list, lambda cs: list(cs)),
         "reversed": (lambda cs: list(reversed(cs)), lambda cs: list(cs)[::-1]),
         "drop_first": (lambda cs: list(cs)[1:], lambda cs: list(cs)[1:]),
+        "lazy_reversed": (reversed, lambda cs: list(cs)[::-1]),            # a lazy iterator is always truthy
+        "lazy_generator": (lambda cs: (c for c in cs), lambda cs: list(cs)),
     }
 
 
@@ -323,9 +326,9 @@ def run(tier):
     cov = {
         "states": t.c["states"], "transitions": t.c["evaluations"], "traces_validated_against_impl": t.c["evaluations"],
         "evaluations": t.c["evaluations"], "distinct_nontrivial": t.c["nontrivial"],
-        "rule": "ordered trees up to %d nodes with every assignment of 5 attribute dictionaries (empty, one key, nested with "
-                "None/list/dict/shared object, key 'name', private key) per node (10 rotations per shape above %d nodes) x 3 "
-                "node classes x start x maxlevel {None,0,1..height+1} x 5 attriters x 3 childiters x {dict, OrderedDict}: "
+        "rule": "ordered trees up to %d nodes with every assignment of 6 attribute dictionaries (empty, one key, nested with "
+                "None/list/dict/shared object, key 'name', private key, keys named like read-only properties) per node (10 rotations per shape above %d nodes) x 3 "
+                "node classes x start x maxlevel {None,0,1..height+1} x 5 attriters x 5 childiters (incl. lazy iterators) x {dict, OrderedDict}: "
                 "export vs. reference serialisation incl. mapping type and key order at every level; import of the exported "
                 "dictionary (also with explicit empty children lists) into AnyNode/Node/user class/container-like falsy user class, both "
                 "round trips; one exporter object re-used after its attriter/childiter/dictcls callback raised at every call position; "
